@@ -122,6 +122,16 @@ CLAIMED = {
         "Trusted: weighted_median, compute_inflate, boot_sigma, norm.ppf, sqrt are oracles (recomputed with the same library calls).",
         "DESIGN.md section 5 C15",
     ),
+    "C16": (
+        "Lean 4 theorems about a per-effect model of the dummy-column logic (active / dropped / expanded levels, holdout shares, stable column order, centring) + API-level correspondence on Featurizer's public methods",
+        "one_dropped_per_effect / active_nonconstant / holdout_seen / holdout_dropped / holdout_unseen / holdout_unseen_sum / other_pooled / "
+        "sortFeatures_classes / sortFeatures_perm / centred_sum_zero hold for every assignment of levels to rows. prepare_data / "
+        "filter_to_active_features / generate_holdout_data are run on random frames (levels seen only outside the fitting rows, missing "
+        "levels, selected levels, separate-state models) and column lists and matrices are compared with the model; the design matrix of "
+        "every solver call in full runs is recorded for the caller-level non-constancy predicate (known finding KF-3).",
+        "Trusted: get_dummies column order (sorted level names); PrefixFree naming assumption.",
+        "DESIGN.md section 5 C16",
+    ),
 }
 
 PENDING_REASON = "check not built yet in this session (model and correspondence in progress); not claimed until it is"
